@@ -37,3 +37,24 @@ claim("C08", "DESIGN §3.1, §3.9, §4 C08", SMT,
       "Decides: every validation error of the IPv6 parser is a failure that aborts, and the 13 failure points are the standard's (SM-failpoints rows of parseIPv6, IPv6Unclosed). Does not decide piece arithmetic, compression choice, canonical text.")
 claim("C20", "DESIGN §3.8, §4 C20", "SSA loop analysis (natural loops, constant bounds, self-feeding concatenations) + state-machine path facts (static)",
       "Decides the absence of the two super-linear mechanisms the anchors name: no string is accumulated by concatenation around an input-dependent loop (COST-concat), no conversion copies an open-ended slice or a loop-invariant string inside such a loop and O(remaining-input) cursor helpers run only on paths that leave their state (COST-copy, SM-onevisit). Does not decide the bound itself (amortised re-scans, allocation volume, cost inside dependencies).")
+
+
+# --- remaining properties ---
+for pid in ["C03","C04","C09","C10","C11","C16","C18","C19"]:
+    del NOT_APPLICABLE[pid]
+claim("C03", "DESIGN §3.4, §3.5, §4 C03", "constant-table evaluation as interval sets + SSA must-pass-through (static)",
+      "Decides two necessary conditions only: no default component set leaves unencoded a code point that would end, or be trimmed from, that component when the serialization is parsed again (TAB-closure); every setter path that nulls query or fragment strips an opaque path's trailing spaces when both are null (PAIR-strip). Does not decide the round trip itself (host serializers as fixed points of the host parser, the '/.' guard, IDNA, setter histories).")
+claim("C04", "DESIGN §3.4, §3.5, §4 C04", "state-machine path facts + SSA pairing + table comparison (static)",
+      "Decides: default-port elision follows every store of a new port and every scheme change under an override on every path (PAIR-port); the 'cannot have credentials/port' and opaque-path guards are shared by the sibling setters (PAIR-guards); component sets and forbidden sets are at least the standard's and default ports are the standard's (TAB-super, TAB-forbidden, TAB-schemes). Does not decide the getter-composition identities nor value-level invariants.")
+claim("C09", "DESIGN §3.9, §4 C09", "SSA def-use and dominance on a CFG pruned by the handler summary (static)",
+      "Decides: percent-decoding precedes ToASCII, the forbidden-domain scan ranges over the ToASCII result and dominates every non-lax success return and the IPv4 test (FLOW-hostpipe); the forbidden-domain set is at least the standard's (TAB-forbidden). Does not decide UTS #46 behaviour, case independence, the localhost rule.")
+claim("C10", "DESIGN §3.5, §3.2, §4 C10", "constant-table evaluation + membership predicates as interval sets over all 0x110000 code points (static)",
+      "Decides completely: membership of the six named sets for all code points equals the standard's and the byte and rune predicates agree (TAB-sets); default option sets are the standard's (TAB-defaults); deriving a set returns a fresh set and never writes its parent (EFF-derive, TAB-ctor); named sets and bitsets are never written after initialisation (EFF-globals); escapes use upper-case hex in all encoder copies (TAB-hex). Does not decide the string-level codec laws.")
+claim("C11", "DESIGN §3.5, §3.6, §3.9, §4 C11", "SSA def-use ordering + table comparison (static)",
+      "Decides: '+' is translated before percent-decoding for name and value (FLOW-urlenc); pairs split on '&' and at the first '=' (TAB-urlsplit); sorting is stable with the standard's comparators (OPT-sortcmp); the serializer's escape set must contain & = + % (TAB-urlenc - a known finding, see known_findings.json). Does not decide list semantics of append/delete/set/get nor UTF-8 replacement.")
+claim("C16", "DESIGN §3.6, §4 C16", "SSA pattern rules on option closures, control-dependence facts in the canonicalizer (static)",
+      "Decides: each With* constructor stores exactly the field its name spells, constructors and fields are in bijection (OPT-bij); NewParser/New apply every option unconditionally to the fresh object they return (OPT-apply); each post-processing step is the unconditional setter call under exactly its flag and nothing runs in an option-less profile (OPT-canon); the default-scheme retry has exactly its guard (OPT-retry, ERR-xpkg); parser and profile agree on parameter special cases (OPT-sibling); defaults are the standard's (TAB-defaults); each component writer uses the option set of its component and scheme class (TAB-component). Does not decide conservative-extension claims that need value reasoning.")
+claim("C18", "DESIGN §3.9, §4 C18", "SSA control-dependence facts in the canonicalizer + table comparison (static)",
+      "Decides, per listed variation, that the normalising mechanism is present on every path: every component goes through decode-to-fixpoint-then-encode under benign guards only (FLOW-canon); dot-segment literals incl. %2e forms, tab/newline and whitespace sets (TAB-dots, TAB-ws); default-port elision (PAIR-port). Does not decide that two concrete spellings produce the same string.")
+claim("C19", "DESIGN §3.4, §4 C19", "SSA store pairing per cache group (static)",
+      "Decides: port and decodedPort are stored together at every site; no cache exists for the address kind and IsIPv4/IsIPv6 derive from the host; 'present' decisions test the primary's nil-ness, never a cache sentinel (PAIR-group); default ports are the standard's (TAB-schemes). Does not decide the textual definition of a dotted-decimal IPv4 address used by the derived accessor.")
